@@ -59,11 +59,10 @@ def _nd(a):
 def kind_of(x):
     """'Scores' / 'GroupScores' / 'ConfusionMatrix' / 'ROCCurve' / 'BiasFrame' for library objects of
     either package copy (the copy under test or the pristine twin copy), else None."""
-    t = type(x)
-    if "score_analysis" in (getattr(t, "__module__", "") or ""):
-        for c in t.__mro__:
-            if c.__name__ in ("GroupScores", "Scores", "ConfusionMatrix", "ROCCurve", "BiasFrame"):
-                return c.__name__
+    for c in type(x).__mro__:  # (user subclasses defined elsewhere count as what they derive from)
+        if c.__name__ in ("GroupScores", "Scores", "ConfusionMatrix", "ROCCurve", "BiasFrame") \
+                and "score_analysis" in (getattr(c, "__module__", "") or ""):
+            return c.__name__
     return None
 
 
@@ -183,6 +182,31 @@ def _callers(d):
     return c
 
 
+_USER_SCORE_CLASSES = {}
+
+
+def _user_score_classes(L):
+    """User subclasses of Scores with their own constructors, one pair per package copy; registered as module
+    attributes so that instances can be pickled like any user class defined at module level."""
+    key = L.__name__
+    if key not in _USER_SCORE_CLASSES:
+        class Distances(L.Scores):
+            def __init__(self, pos, neg, **kw):
+                super().__init__(-np.asarray(pos), -np.asarray(neg), **kw)
+
+        class Calibrated(L.Scores):
+            def __init__(self, pos, neg, offset, **kw):
+                super().__init__(np.asarray(pos) + offset, np.asarray(neg) + offset, **kw)
+                self.offset = offset
+
+        for cls in (Distances, Calibrated):
+            cls.__name__ = cls.__qualname__ = f"{cls.__name__}_{key}"
+            cls.__module__ = __name__
+            globals()[cls.__name__] = cls
+        _USER_SCORE_CLASSES[key] = (Distances, Calibrated)
+    return _USER_SCORE_CLASSES[key]
+
+
 def build_scores(spec, L=None):
     """spec -> (object, caller_arrays dict). Caller arrays are kept so that the
     simulator can check that the library never writes to them."""
@@ -216,6 +240,25 @@ def build_scores(spec, L=None):
             nb_easy_pos=int(spec.get("nb_easy_pos", 0)), nb_easy_neg=int(spec.get("nb_easy_neg", 0)),
             score_class=spec.get("score_class", "pos"), equal_class=spec.get("equal_class", "pos"),
         )
+        for _ in range(int(spec.get("swaps", 0))):
+            o = o.swap()
+        return o, callers
+    ui = spec.get("user_init")
+    if ui in ("negating", "extra_arg") and pos.dtype.kind in "fi" and not is_sorted:
+        # the caller's own subclass with its own constructor: distances negated into similarities / a mandatory extra
+        # argument.  The arrays handed over are chosen so that the resulting object is the one the spec describes.
+        Distances, Calibrated = _user_score_classes(L)
+        if ui == "negating":
+            pos, neg = -pos, -neg
+            ctor = Distances
+        else:
+            ctor = lambda p_, n_, **kw: Calibrated(p_, n_, 0, **kw)  # noqa: E731
+        if spec.get("readonly"):
+            pos.flags.writeable = False
+            neg.flags.writeable = False
+        callers = _callers({"pos": pos, "neg": neg})
+        o = ctor(pos, neg, nb_easy_pos=int(spec.get("nb_easy_pos", 0)), nb_easy_neg=int(spec.get("nb_easy_neg", 0)),
+                 score_class=spec.get("score_class", "pos"), equal_class=spec.get("equal_class", "pos"))
         for _ in range(int(spec.get("swaps", 0))):
             o = o.swap()
         return o, callers
